@@ -250,6 +250,10 @@ RULES = [
 ]
 
 
+from . import shared
+RULES = RULES + shared.bundle('C04', [], ['resolution', 'resolution2d'])
+
+
 def run(tier="quick", replay=None):
     return run_check(
         "C04", RULES, tier=tier, replay=replay,
